@@ -381,7 +381,7 @@ pub fn run(tier: &str, seed: u64) -> i32 {
     let start = Instant::now();
     let thorough = tier == "thorough";
     let fams = families(thorough);
-    let wall_cap = Duration::from_secs(std::env::var("VERIF_WALL_CAP_S").ok().and_then(|s| s.parse().ok()).unwrap_or(if thorough { 20 * 60 } else { 300 }));
+    let wall_cap = Duration::from_secs(std::env::var("VERIF_WALL_CAP_S").ok().and_then(|s| s.parse().ok()).unwrap_or(if thorough { 12 * 60 } else { 300 }));
     let pool = std::thread::available_parallelism().map(|n| n.get()).unwrap_or(8);
     let chunk = 20_000usize;
     let mut jobs: Vec<(usize, usize, usize)> = vec![];
